@@ -1,5 +1,6 @@
 """C09 — whole-CPU differential against Spec.run (see cpucheck.py and DESIGN §4 C09)."""
 from . import cpucheck, rigcheck
+from . import mvp3
 
 NOTE = {"c01": "families: all generators (alu, dep, dep-mem, mem, br, br-mem, shadow, shadow-reg, tail, pair, err); all 12 variants",
         "c03": "families: shadow (taken branches/jumps whose shadow holds register writes, stores, loads incl. out-of-range, jal, div by zero, undefined label, a second branch; fast and load-delayed conditions), shadow-reg, br, br-mem; variants MVP-4..8",
@@ -14,7 +15,8 @@ VARS = {"c01": None,
 
 
 def run(ck):
-    cpucheck.run(ck, "C09", "cpu-c09", NOTE["c09"], variants=VARS["c09"], extra=rigcheck.c09)
+    cpucheck.run(ck, "C09", "cpu-c09", NOTE["c09"], variants=VARS["c09"], extra=rigcheck.c09,
+                 theorems=mvp3.theorem_modules()["C09"])
 
 
 def replay(ck, path):
